@@ -24,6 +24,10 @@ func (g *whichOneofGen) genComment() {
 
 func (g *whichOneofGen) genFunc() {
 	g.P("func (x *", g.typeName, ") WhichOneof(d ", protoreflectPkg.Ident("OneofDescriptor"), ") ", protoreflectPkg.Ident("FieldDescriptor"), " {")
+	// a nil message is a valid, empty, read-only message
+	g.P("if x == nil {")
+	g.P("x = &", g.typeName, "{}")
+	g.P("}")
 	g.P("switch d.FullName() {")
 	for _, oneof := range g.message.Oneofs {
 		g.P("case \"", oneof.Desc.FullName(), "\": ")
